@@ -36,6 +36,7 @@ structure PassT where
   trans : Array (Array Nat)      -- `numTransition` rows of `numColumns` states
   ruleMap : Array (List Nat)     -- per success state: rule numbers in table order
   rules : Array Rule
+  reverseDir : Bool := false     -- `m_isReverseDir` (bit 5 of the pass flags): the pass runs against the font's direction
   deriving Repr, Inhabited
 
 def PassT.successStart (p : PassT) : Nat := p.numStates - p.numSuccess
@@ -89,6 +90,39 @@ def ahead (seg : Seg) : Nat → Option Nat → List Nat
   | 0, _ => []
   | _, none => []
   | n + 1, some s => s :: ahead seg n (seg.get s).next
+
+/-! ### `Segment::reverseSlots`
+
+The C++ relinks the stream in place.  Its effect on the order of the stream: leading slots of bidi class 16 (non-spacing
+marks) stay in front; behind them the remaining slots are grouped into a base with the marks that follow it, and the groups
+come out in reverse order, the marks of a group still behind their base in their original order.  The model computes that
+order (`revOrder`) and relinks the stream accordingly (`Seg.relink`); `m_dir` has its bit 6 flipped first, and runs of at
+most one slot or of marks only are left as they are. -/
+
+/-- `cur`: the current group, reversed; `out`: the groups already placed, in final order -/
+def revAcc (mark : Nat → Bool) : List Nat → List Nat → List Nat → List Nat
+  | [], cur, out => cur.reverse ++ out
+  | x :: xs, cur, out => if mark x then revAcc mark xs (x :: cur) out else revAcc mark xs [x] (cur.reverse ++ out)
+
+def revOrder (mark : Nat → Bool) (l : List Nat) : List Nat :=
+  l.takeWhile mark ++ revAcc mark (l.dropWhile mark) [] []
+
+/-- link the slots of `order` in that order: `prev`/`next` of each, `first`, `last` -/
+def relinkGo (s : Seg) : Option Nat → List Nat → Seg
+  | _, [] => s
+  | p, x :: rest => relinkGo (s.upd x fun sl => (sl.setPrev p).setNext rest.head?) (some x) rest
+
+def _root_.GrVerif.Seg.Seg.relink (s : Seg) (order : List Nat) : Seg :=
+  ((relinkGo s none order).setFirst order.head?).setLast order.getLast?
+
+def _root_.GrVerif.Seg.Seg.flipDir (s : Seg) : Seg := { s with dir := s.dir ^^^ 64 }
+
+/-- `Segment::reverseSlots()`; `mark i` = "slot `i` has bidi class 16" -/
+def _root_.GrVerif.Seg.Seg.reverseSlots (s : Seg) (mark : Nat → Bool) : Seg :=
+  let s := s.flipDir
+  if s.first = s.last then s else
+  let l := ahead s (2 * s.slots.size + 8) s.first
+  if l.all mark then s else s.relink (revOrder mark l)
 
 /-- `FiniteStateMachine::reset`: walk back over at most `maxPre` predecessors; `(start slot, context length)` -/
 def fsmBack (seg : Seg) (maxPre : Nat) : Nat → Nat → Nat → Nat × Nat
@@ -287,6 +321,19 @@ def runPass (p : PassT) (c : Ctx) (fuel : Nat) : Except String (Option Ctx) :=
     | .ok (none, _) => .ok none
     | .ok (some c, it) => .ok (some (noteLoop c it bound))
 
+/-- `Segment::getSlotBidiClass(s) == 16`: the class is glyph attribute `aBidi` of the slot's glyph, as an `int8` (the cached
+copy in the slot is reset by `setGlyph` and copied with the glyph id, so it is always this value) -/
+def isMark (c : Ctx) (seg : Seg) (i : Nat) : Bool := Vm.i8 (glyphAttr c (seg.get i).gid c.aBidi) = 16
+
+/-- the direction decision of `Silf::runGraphite` for one pass (no bidi pass: `lbidi == 0xFF`) and the reversal at the top of
+`Pass::runGraphite`: `reverse = seg->currdir() != ((m_dir & 1) ^ pass.reverseDir())`; nothing happens on an empty segment -/
+def runPassDir (p : PassT) (c : Ctx) (fuel : Nat) : Except String (Option Ctx) :=
+  match c.seg.first with
+  | none => .ok (some c)
+  | some _ =>
+    let reverse := c.seg.currdir != ((c.dir % 2 == 1) != p.reverseDir)
+    runPass p (if reverse then c.withSeg (c.seg.reverseSlots (isMark c c.seg)) else c) fuel
+
 /-- one call of `Silf::runGraphite(seg, lo, hi)` (no bidi pass): a fresh slot map and machine, `maxSize = slotCount *
 MAX_SEG_GROWTH_FACTOR`; after each pass the segment may not have outgrown that limit -/
 def runRange (passes : Array PassT) (c : Ctx) (lo hi : Nat) (fuel : Nat) : Except String (Option Ctx) :=
@@ -295,7 +342,7 @@ def runRange (passes : Array PassT) (c : Ctx) (lo hi : Nat) (fuel : Nat) : Excep
   (List.range (hi - lo)).foldl (fun (acc : Except String (Option Ctx)) k =>
     match acc with
     | .ok (some c) =>
-      (match runPass (passes.getD (lo + k) default) c fuel with
+      (match runPassDir (passes.getD (lo + k) default) c fuel with
        | .ok (some c) => if c.seg.numGlyphs > 0 ∧ c.seg.numGlyphs > limit then .ok none else .ok (some c)
        | o => o)
     | o => o) (.ok (some c))
@@ -307,16 +354,18 @@ structure Font where
   gattr : Array (Array Int)
   gadv : Array Int                 -- advance widths (hmtx)
   cmap : Nat → Nat
+  silfDir : Nat := 0               -- `Silf::m_dir` (the direction byte of the table minus one): 1 = a right-to-left font
+  aBidi : Nat := 3                 -- the glyph attribute holding the bidi class
 
 /-- `Segment::read_text`: one slot per character, appended in order -/
-def initSeg (font : Font) (text : List Nat) : Seg :=
+def initSeg (font : Font) (text : List Nat) (dir : Nat := 0) : Seg :=
   let n := text.length
   text.zipIdx.foldl (fun s (x : Nat × Nat) => s.appendSlot x.2 (font.cmap x.1) 64 (font.gadv.getD (font.cmap x.1) 0))
-    { numGlyphs := n, numChars := n, slots := Array.replicate (n + 10) {}, free := List.range (n + 10), bufSize := Nat.log2 n + 1 }
+    { numGlyphs := n, numChars := n, slots := Array.replicate (n + 10) {}, free := List.range (n + 10), bufSize := Nat.log2 n + 1, dir := dir }
 
-def initCtx (font : Font) (text : List Nat) : Ctx :=
-  { seg := initSeg font text, smap := Array.replicate (MAX_SLOTS + 2) none, size := 0, context := 0, maxSize := (text.length * 64 : Nat),
-    dir := 0, map := 0, is := none, classes := font.classes, gattr := font.gattr, gadv := font.gadv }
+def initCtx (font : Font) (text : List Nat) (dir : Nat := 0) : Ctx :=
+  { seg := initSeg font text dir, smap := Array.replicate (MAX_SLOTS + 2) none, size := 0, context := 0, maxSize := (text.length * 64 : Nat),
+    dir := font.silfDir, map := 0, is := none, classes := font.classes, gattr := font.gattr, gadv := font.gadv, aBidi := font.aBidi }
 
 /-- `Segment::associateChars` on the stream (and the renumbering of the slots' `index`); `none` = a char-info access out of range -/
 def reassoc (seg : Seg) (n : Nat) : Option (Seg × List Assoc.CI) :=
@@ -328,10 +377,12 @@ def reassoc (seg : Seg) (n : Nat) : Option (Seg × List Assoc.CI) :=
   let seg' := stream.zipIdx.foldl (fun s (x : Nat × Nat) => s.upd x.1 fun sl => sl.setIndex x.2) seg'
   some (seg', r.2.1)
 
-/-- the whole pipeline for a left-to-right request: text → slots → substitution passes → `associateChars` → positioning passes -/
-def shape (font : Font) (text : List Nat) (fuel : Nat) : Except String (Option (Ctx × List Assoc.CI)) :=
+/-- the whole pipeline up to `Segment::finalise`: text → slots → substitution passes → `associateChars` → positioning passes;
+`dir` is the direction argument of `gr_make_seg` (bit 0: right to left), the font's own direction is `font.silfDir`; each pass
+finds the stream in the direction it wants (`runPassDir`).  No bidi pass, no mirroring. -/
+def shape (font : Font) (text : List Nat) (fuel : Nat) (dir : Nat := 0) : Except String (Option (Ctx × List Assoc.CI)) :=
   if text.length = 0 then .ok (some ({ seg := {}, smap := #[], size := 0, context := 0, maxSize := 0, map := 0, is := none }, [])) else
-  match runRange font.passes (initCtx font text) 0 font.ipos fuel with
+  match runRange font.passes (initCtx font text dir) 0 font.ipos fuel with
   | .error w => .error w
   | .ok none => .ok none
   | .ok (some c) =>
@@ -342,6 +393,10 @@ def shape (font : Font) (text : List Nat) (fuel : Nat) : Except String (Option (
       | .error w => .error w
       | .ok none => .ok none
       | .ok (some c) => .ok (some (c, ci))
+
+/-- the reversal at the end of `Segment::finalise(font, true)`: `if (currdir() != (m_dir & 1)) reverseSlots();` -/
+def finaliseDir (c : Ctx) : Seg :=
+  if c.seg.currdir != (c.seg.dir % 2 == 1) then c.seg.reverseSlots (isMark c c.seg) else c.seg
 
 /-- one step of `Segment::linkClusters`: `ls->sibling(s)` (left to right) or `s->sibling(ls)` (right to left) -/
 def linkStep (dir : Nat) (acc : Seg × Nat) (s : Nat) : Seg × Nat :=
